@@ -454,6 +454,47 @@ def invalid_constant(module):
     return None
 
 
+def _attr_sig(op):
+    from vt.canon import attr_key
+    return (op.name, tuple(sorted((k, attr_key(v)) for k, v in op.properties.items())),
+            tuple(sorted((k, attr_key(v)) for k, v in op.attributes.items())),
+            tuple(attr_key(r.type) for r in op.results))
+
+
+def merged_pair(pname, cur):
+    """Fallback localisation for value-merging rewrites (CSE): re-run the pass on a clone of the stage input and
+    look for a removed op R whose result was replaced, in a surviving user, by the same-numbered result of
+    another op E of the same kind.  The first pair whose attributes differ bit-wise (e.g. 0.0 vs -0.0) is
+    blamed with value_class 'attr_differs'; else the first pair of ops with memory effects ('identical')."""
+    from xdsl.ir import Operation
+    w = _clone(cur)
+    ops = list(w.walk())
+    sigs = {id(o): _attr_sig(o) for o in ops}
+    uses = []
+    for o in ops:
+        for ri, res in enumerate(o.results):
+            for u in res.uses:
+                uses.append((o, ri, u.operation, u.index))
+    if apply_pass(pname, w) is not None:
+        return None
+    alive = {id(o) for o in w.walk()}
+    pairs = []
+    for o, ri, user, idx in uses:
+        if id(o) in alive or id(user) not in alive:
+            continue
+        nv = user.operands[idx]
+        e = nv.owner
+        if isinstance(e, Operation) and e.name == o.name and getattr(nv, "index", None) == ri and id(e) in sigs:
+            pairs.append((o, e))
+    for o, e in pairs:
+        if sigs[id(o)] != sigs[id(e)]:
+            return o, "attr_differs"
+    for o, e in pairs:
+        if not o.name.startswith("arith."):
+            return o, "identical"
+    return None
+
+
 def removed_summary(removed):
     """(op kinds, type class) of the ops a pass removed: constants only count when nothing else was removed."""
     names = sorted({o.name for o in removed if o.name != "arith.constant"})
@@ -549,9 +590,22 @@ def check_pipeline(h, recipe, subj: Subject, base_results, pipe, label):
                        "value_class": loc["value_class"]}
                 text = loc["text"]
             else:
-                sig = {"check": kind, "pass": pname, "op": "removed:" + gone, "pred": "-",
-                       "type": gone_ty, "value_class": "-"}
-                text = "no single pure-op slice is mis-transformed on its own"
+                mp = None
+                try:
+                    mp = merged_pair(pname, cur)
+                except Unclonable:
+                    h.count("localise_skipped_unclonable")
+                if mp is not None:
+                    mo, mclass = mp
+                    sig = {"check": kind, "pass": pname, "op": "merged:" + mo.name, "pred": op_pred(mo),
+                           "type": width_class(refsem.type_name(mo.results[0].type)), "value_class": mclass}
+                    text = (f"{pname} replaced the result of one {mo.name} by that of another one "
+                            + ("whose attributes differ bit-wise" if mclass == "attr_differs"
+                               else "although they are not interchangeable here"))
+                else:
+                    sig = {"check": kind, "pass": pname, "op": "removed:" + gone, "pred": "-",
+                           "type": gone_ty, "value_class": "-"}
+                    text = "no single pure-op slice is mis-transformed on its own"
             inp = "()" if subj.flat else repr(subj.vecs[i])
             h.mismatch(sig, one, f"{pname} (stage {stage} of {pipe}) changed the behaviour on input {inp}: {why}\n"
                        f"{text}\n-- program before the stage:\n" + progen.render(cur)[:2500])
